@@ -190,7 +190,7 @@ CHECK_DEADLOCK FALSE
 
 
 CFG_EXTRA = {
-    "TraceRW": 'CONSTANTS\n  Backend = "badger"\n  MetaAlways = TRUE\n  Gs = {1}\n  IdSet = {1, 2}\n  Vals = {1, 2}\n',
+    "TraceRW": 'CONSTANTS\n  Backend = "badger"\n  MetaAlways = TRUE\n  PointMeta = TRUE\n  Gs = {1}\n  IdSet = {1, 2}\n  Vals = {1, 2}\n',
 }
 
 
@@ -734,6 +734,8 @@ def stage_lin(ctx, st):
     stats = os.path.join(ctx.work, "conc-%s.json" % st["name"])
     args = ["conc", "-seed", str(ctx.seed + st.get("seed_off", 0)), "-n", str(n), "-out", out, "-stats", stats,
             "-backends", st.get("backends", "rotate"), "-maxg", str(st.get("maxg", 4)), "-ops", str(st.get("ops", 3)), "-par", "4"]
+    if st.get("gated"):
+        args.append("-gated")
     msg = run_driver(ctx, args)
     ctx.log(msg.strip().splitlines()[-1])
     with open(stats) as f:
